@@ -424,6 +424,32 @@ func validateArbitraryData(ms *MidState, txn types.Transaction) error {
 	return nil
 }
 
+// coveredFieldsInRange reports whether every index in cf refers to an existing
+// element of txn. The signature hash functions index txn with these values.
+func coveredFieldsInRange(txn types.Transaction, cf types.CoveredFields) bool {
+	inRange := func(indices []uint64, n int) bool {
+		for _, i := range indices {
+			if i >= uint64(n) {
+				return false
+			}
+		}
+		return true
+	}
+	if cf.WholeTransaction {
+		return inRange(cf.Signatures, len(txn.Signatures))
+	}
+	return inRange(cf.SiacoinInputs, len(txn.SiacoinInputs)) &&
+		inRange(cf.SiacoinOutputs, len(txn.SiacoinOutputs)) &&
+		inRange(cf.FileContracts, len(txn.FileContracts)) &&
+		inRange(cf.FileContractRevisions, len(txn.FileContractRevisions)) &&
+		inRange(cf.StorageProofs, len(txn.StorageProofs)) &&
+		inRange(cf.SiafundInputs, len(txn.SiafundInputs)) &&
+		inRange(cf.SiafundOutputs, len(txn.SiafundOutputs)) &&
+		inRange(cf.MinerFees, len(txn.MinerFees)) &&
+		inRange(cf.ArbitraryData, len(txn.ArbitraryData)) &&
+		inRange(cf.Signatures, len(txn.Signatures))
+}
+
 func validateSignatures(ms *MidState, txn types.Transaction) error {
 	// build a map of all outstanding signatures
 	//
@@ -474,6 +500,10 @@ func validateSignatures(ms *MidState, txn types.Transaction) error {
 		}
 		e.used[sig.PublicKeyIndex] = true
 		e.need--
+
+		if !coveredFieldsInRange(txn, sig.CoveredFields) {
+			return fmt.Errorf("signature %v covers a nonexistent field", i)
+		}
 
 		switch pk := e.keys[sig.PublicKeyIndex]; pk.Algorithm {
 		case types.SpecifierEd25519:
